@@ -11,6 +11,11 @@ use rand_chacha::ChaCha8Rng;
 use rand_core::SeedableRng;
 use vcommon::*;
 use zcash_pool_migration::denomination::{plan_denominations, DenominationPlan};
+use zcash_pool_migration::engine::{plan_migration_with, MigrationError};
+use zcash_pool_migration::preparation::default_portfolio;
+use zcash_pool_migration_memory::MockBackend;
+use zcash_protocol::consensus::BlockHeight;
+use zcash_protocol::local_consensus::LocalNetwork;
 use zcash_pool_migration::preparation::FUNDING_OUTPUTS_PER_TX;
 use zcash_protocol::value::{Zatoshis, MAX_MONEY};
 use zcash_protocol::zip318::{is_canonical_denomination, largest_one_two_five, DENOM_CAP, MAX_RESIDUAL_VALUE};
@@ -348,7 +353,11 @@ fn rand_small(r: &mut Rng, lattice: &[u64]) -> u64 {
 fn rand_plan(r: &mut Rng, adversarial: bool) -> PlanIn {
     let buffer = if r.chance(1, 2) && !adversarial { ZIP317_BUFFER } else { rand_small(r, &buffers()) };
     let fee = if r.chance(1, 2) && !adversarial { PREP_FEE } else { rand_small(r, &fees()) };
-    let total = match r.below(10) {
+    let total = match r.below(11) {
+        10 => {
+            let all: Vec<u64> = all_125().into_iter().filter(|&x| x <= MAX_MONEY).collect();
+            (*r.pick(&all)).saturating_add(buffer).min(MAX_MONEY)
+        }
         0 => r.below(MAX_MONEY + 1),
         1 => r.below(200 * MIN),
         2 => r.below(100_000 * MIN),
@@ -395,6 +404,35 @@ fn boundary_plans(o: &mut Out, thorough: bool, seeds: (u64, u64)) {
             }
         }
     }
+    // every 1-2-5 value OUTSIDE the canonical range (below 0.01 ZEC, above 10,000 ZEC up to
+    // MAX_MONEY): on the series but not a denomination, so neither the exact-funding shortcut nor
+    // the greedy may emit it
+    let outside: Vec<u64> = all_125().into_iter().filter(|&x| x <= MAX_MONEY && !(MIN..=CAPD).contains(&x)).collect();
+    let out_cfgs: Vec<(u64, u64)> = if thorough { cfgs.clone() } else { vec![(ZIP317_BUFFER, PREP_FEE), (0, 0)] };
+    for &(buffer, fee) in &out_cfgs {
+        for (j, &d) in outside.iter().enumerate() {
+            let mut totals = vec![];
+            for base in [d as u128, d as u128 + buffer as u128, d as u128 + buffer as u128 + fee as u128, d as u128 + fee as u128] {
+                for dz in [-1i128, 0, 1] {
+                    let t = base as i128 + dz;
+                    if (0..=MAX_MONEY as i128).contains(&t) {
+                        totals.push(t as u64);
+                    }
+                }
+            }
+            totals.sort();
+            totals.dedup();
+            for (i, &total) in totals.iter().enumerate() {
+                for nc in [0usize, 1, 2] {
+                    let cap = [1usize, 2, 14, 50, 64][(i + j + nc) % 5];
+                    plan_case(o, &PlanIn { total, nc, cap, buffer, fee, os: OSpec::Const(Some(0)) }, seeds);
+                    if nc == 1 || thorough {
+                        plan_case(o, &PlanIn { total, nc, cap, buffer, fee, os: OSpec::Stub }, seeds);
+                    }
+                }
+            }
+        }
+    }
     // small balances around the smallest self-funding note
     for buffer in [0u64, 1, ZIP317_BUFFER] {
         for fee in [0u64, 1, PREP_FEE] {
@@ -433,6 +471,163 @@ fn corpus(o: &mut Out, seeds: (u64, u64)) {
     // whale
     plan_case(o, &PlanIn { total: MAX_MONEY, nc: 55, cap: 50, buffer: ZIP317_BUFFER, fee: PREP_FEE, os: OSpec::Stub }, seeds);
     plan_case(o, &PlanIn { total: MAX_MONEY, nc: 1, cap: 64, buffer: MAX_MONEY, fee: MAX_MONEY, os: OSpec::Stub }, seeds);
+}
+
+// ---------------------------------------------------------------------------------------------
+// engine::plan_migration_with: the same planner behind the real preparation planner as oracle
+// ---------------------------------------------------------------------------------------------
+fn local_net() -> LocalNetwork {
+    let h = Some(BlockHeight::from_u32(1));
+    LocalNetwork { overwinter: h, sapling: h, blossom: h, heartwood: h, canopy: h, nu5: h, nu6: h, nu6_1: h, nu6_2: h, nu6_3: h }
+}
+
+/// (crossings, outputs, change, prep_fees, total_input, total_migratable, buffer, n_txs) or an error tag
+fn engine_once(notes: &[u64], cap: usize, rng_seed: u64) -> Option<Result<(DenominationPlan, Vec<u64>, usize), &'static str>> {
+    let backend = MockBackend::new(notes.to_vec(), 1000);
+    let mut rng = ChaCha8Rng::seed_from_u64(rng_seed);
+    let net = local_net();
+    catch(|| {
+        match plan_migration_with(&default_portfolio(), NonZeroUsize::new(cap).expect("cap >= 1"), &net, &backend, &mut rng) {
+            Ok(plan) => {
+                let d = plan.denominations().clone();
+                let outs: Vec<u64> = d.migration_outputs().iter().map(|v| v.into_u64()).collect();
+                Ok((d, outs, plan.preparation().transaction_count()))
+            }
+            Err(MigrationError::NothingToMigrate) => Err("ENothing"),
+            Err(MigrationError::UnfundableSplit) => Err("EUnfundable"),
+            Err(_) => Err("EOther"),
+        }
+    })
+}
+
+fn engine_case(o: &mut Out, notes: &[u64], cap: usize, fees: (u64, u64), seeds: (u64, u64)) {
+    let a = engine_once(notes, cap, seeds.0);
+    let b = engine_once(notes, cap, seeds.1);
+    let same = a == b;
+    let outcome = match &a {
+        None => {
+            o.bump("engine_panic");
+            PANIC.to_string()
+        }
+        Some(Err(e)) => {
+            o.bump(&format!("engine_{}", e));
+            err(e)
+        }
+        Some(Ok((p, outs, ntx))) => {
+            let cross: Vec<u64> = p.crossing_values().iter().map(|v| v.into_u64()).collect();
+            o.bump("engine_ok");
+            if *ntx == 0 {
+                o.bump("engine_direct_funding");
+            }
+            if cross.len() == cap {
+                o.bump("engine_cap_reached");
+            }
+            assert_eq!(u64::from(p.note_fee_buffer()), fees.0, "transfer-fee buffer differs from the calibrated one");
+            ok(format!(
+                "((mkPlan {} {} {} {} {} {} {} 0), {})",
+                zl(&cross),
+                zl(outs),
+                opt(p.change().map(|v| zu(v.into_u64() as u128))),
+                zu(u64::from(p.prep_fees()) as u128),
+                zu(u64::from(p.total_input()) as u128),
+                zu(u64::from(p.total_migratable()) as u128),
+                zu(u64::from(p.note_fee_buffer()) as u128),
+                zu(*ntx as u128)
+            ))
+        }
+    };
+    o.c(format!("Engine {} {} {} {} {} {}", zl(notes), zu(cap as u128), zu(fees.0 as u128), zu(fees.1 as u128), outcome, boolc(same)));
+}
+
+/// The canonical (buffer, prep fee) the engine computes: read off a calibration plan.
+fn calibrate() -> (u64, u64) {
+    let r = engine_once(&[300_000_000, 300_000_000, 77_000_000], 50, 1).expect("calibration plan panicked").expect("calibration plan failed");
+    let (p, _, ntx) = r;
+    assert!(ntx > 0, "calibration wallet needs preparation");
+    let fees = u64::from(p.prep_fees());
+    assert_eq!(fees % ntx as u64, 0);
+    (u64::from(p.note_fee_buffer()), fees / ntx as u64)
+}
+
+fn engine_cases(o: &mut Out, r: &mut Rng, nrand: usize, seeds: (u64, u64)) {
+    let fees = calibrate();
+    let (buffer, fee) = fees;
+    let s = series();
+    // hand-written wallets
+    let fixed: Vec<(Vec<u64>, usize)> = vec![
+        (vec![], 50),
+        (vec![0], 50),
+        (vec![1], 50),
+        (vec![MIN + buffer - 1], 50),
+        (vec![MIN + buffer], 50),
+        (vec![MIN + buffer, 1], 50),
+        (vec![MIN + buffer + fee], 50),
+        (vec![100_000_000 + buffer], 50),
+        (vec![60_000_000, 40_000_000 + buffer], 50),
+        (vec![2 * CAPD + buffer], 50),
+        (vec![2 * CAPD + buffer], 1),
+        (vec![MIN; 300], 50),
+        (vec![56_000; 20], 50),
+        (vec![40_000; 28], 50),
+        (vec![(2 * MIN + 2 * buffer + fee) / 31 + 1; 31], 50),
+        (vec![CAPD; 55], 50),
+        (vec![MAX_MONEY], 64),
+        (vec![MAX_MONEY / 2, MAX_MONEY / 2], 64),
+        (vec![12_345_678_900], 8),
+        (vec![374_861_740_000], 50),
+    ];
+    for (notes, cap) in &fixed {
+        engine_case(o, notes, *cap, fees, seeds);
+    }
+    // every denomination held exactly (with its buffer), as one note and as two
+    for &d in &s {
+        for dz in [-1i64, 0, 1] {
+            let t = (d + buffer) as i64 + dz;
+            engine_case(o, &[t as u64], 50, fees, seeds);
+            engine_case(o, &[t as u64 - MIN / 2, MIN / 2], 3, fees, seeds);
+        }
+        engine_case(o, &[d + buffer + fee], 50, fees, seeds);
+    }
+    for _ in 0..nrand {
+        let n = match r.below(6) {
+            0 => 1,
+            1 => 2,
+            2 => r.range(1, 6) as usize,
+            3 => r.range(1, 20) as usize,
+            4 => r.range(10, 60) as usize,
+            _ => r.range(1, 3) as usize,
+        };
+        let mut notes: Vec<u64> = Vec::with_capacity(n);
+        let style = r.below(6);
+        for _ in 0..n {
+            let v = match style {
+                0 => r.below(2_000_000_000),
+                1 => *r.pick(&s) + buffer,
+                2 => (*r.pick(&s)).saturating_add(r.below(3 * buffer + 3)).saturating_sub(buffer),
+                3 => r.below(3 * MIN),
+                4 => r.below(MAX_MONEY / 64),
+                _ => match r.below(3) {
+                    0 => *r.pick(&s) + buffer,
+                    1 => r.below(100_000),
+                    _ => r.below(50 * CAPD),
+                },
+            };
+            notes.push(v);
+        }
+        if r.chance(1, 8) {
+            // a fragmented wallet holding barely more than one small denomination and its optimistic fees
+            let d = *r.pick(&s[..6]);
+            let k = r.range(16, 60);
+            let each = (d + buffer + fee + r.below(2 * fee)) / k + 1;
+            notes = vec![each; k as usize];
+        }
+        let total: u128 = notes.iter().map(|&v| v as u128).sum();
+        if total > MAX_MONEY as u128 {
+            continue;
+        }
+        let cap = if r.chance(1, 2) { 50 } else { r.range(1, 64) as usize };
+        engine_case(o, &notes, cap, fees, seeds);
+    }
 }
 
 fn l125_cases(o: &mut Out, r: &mut Rng, nrand: usize) {
@@ -587,6 +782,7 @@ fn main() {
         }
         plan_case(&mut o, &p, seeds);
     }
+    engine_cases(&mut o, &mut r, a.budget(500, 8_000), seeds);
     l125_cases(&mut o, &mut r, a.budget(500, 6_000));
     canon_cases(&mut o, &mut r, a.budget(300, 3_000));
     stored_cases(&mut o, &mut r, a.budget(100, 2_000));
